@@ -17,7 +17,7 @@ RULE = ('for each sampled (scenario, plan) the fault-free run yields A allocator
         'distinct = (scenario, plan, fault position), non-trivial = the fault actually fired')
 TIERS = {
     'quick': {'scenarios': 24, 'plans': 5, 'wall_cap': 600},
-    'thorough': {'scenarios': 500, 'plans': 10, 'wall_cap': 3300},
+    'thorough': {'scenarios': 2000, 'plans': 10, 'wall_cap': 3300},
 }
 COMPONENTS = sb.COMPONENTS
 ASSUMPTIONS = ['EINTR/EIO are injected at the fopencookie read callback and at the redefined read() of -Cr scanners, not by real signals',
